@@ -65,6 +65,11 @@ theorem regOp_inv {st st1 : St} {p n : Pc} (h : regOp st p = some (st1, n)) : Re
   · cases h; exact .insert
   · cases h
 
+/-- **where the extracted discipline enters the proofs**: `_close_entry` takes the entry lock with a blocking
+acquire, so the model's `entTimeout` step (a timed acquire that fails) is never enabled.  A source in which
+`_close_entry` waits with a timeout makes this false — and with it every theorem below. -/
+theorem timeoutDisabled : srcDisc.closeWaitMillis.isSome = false := by decide
+
 /-- every step of the model, one constructor per (label, program counter) branch of `step` -/
 inductive Trans (st : St) : Label → St → Prop
   | tick (d) : Trans st (.tick d) { st with clock := st.clock + d }
@@ -116,16 +121,23 @@ inductive Trans (st : St) : Label → St → Prop
       Trans st (.closeEnd t s)
         { st with pc := upd st.pc t (.cRel s c), crun := upd2 st.crun t s false, cend := upd st.cend s (st.cend s + 1) }
   | openDone {t s} : st.pc t = .opened s → Trans st (.openDone t) { st with pc := upd st.pc t .idle }
+  -- the close hook run WITHOUT the entry lock (reachable only after a failed timed acquire)
+  | closeStartU {t s c} : st.pc t = .uOpen s c →
+      Trans st (.closeStart t s)
+        { st with pc := upd st.pc t (.uRun s c), crun := upd2 st.crun t s true, cstart := upd st.cstart s (st.cstart s + 1) }
+  | closeEndU {t s c} : st.pc t = .uRun s c →
+      Trans st (.closeEnd t s)
+        { st with pc := upd st.pc t (afterClose s c), crun := upd2 st.crun t s false, cend := upd st.cend s (st.cend s + 1) }
 
 theorem step_trans {st st' : St} {l : Label} (h : step st l = some st') : Trans st l st' := by
   cases l with
-  | tick d => simp only [step, Option.some.injEq] at h; subst h; exact .tick d
-  | reqBegin t s => simp only [step] at h; split at h <;> cases h; exact .reqBegin (by assumption)
-  | delBegin t s => simp only [step] at h; split at h <;> cases h; exact .delBegin (by assumption)
-  | openBegin t ttl pm => simp only [step] at h; split at h <;> cases h; exact .openBegin (by assumption)
-  | shutBegin t => simp only [step] at h; split at h <;> cases h; exact .shutBegin (by assumption)
+  | tick d => simp only [step, stepD, Option.some.injEq] at h; subst h; exact .tick d
+  | reqBegin t s => simp only [step, stepD] at h; split at h <;> cases h; exact .reqBegin (by assumption)
+  | delBegin t s => simp only [step, stepD] at h; split at h <;> cases h; exact .delBegin (by assumption)
+  | openBegin t ttl pm => simp only [step, stepD] at h; split at h <;> cases h; exact .openBegin (by assumption)
+  | shutBegin t => simp only [step, stepD] at h; split at h <;> cases h; exact .shutBegin (by assumption)
   | readClock t v =>
-    simp only [step] at h
+    simp only [step, stepD] at h
     split at h
     · rename_i hv; subst hv
       split at h <;> cases h
@@ -135,14 +147,14 @@ theorem step_trans {st st' : St} {l : Label} (h : step st l = some st') : Trans 
       · exact .rcSeal (by assumption)
     · cases h
   | allocSid t s =>
-    simp only [step] at h
+    simp only [step, stepD] at h
     split at h
     · split at h
       · rename_i hs; subst hs; cases h; exact .allocSid (by assumption)
       · cases h
     · cases h
   | regAcq t =>
-    simp only [step] at h
+    simp only [step, stepD] at h
     split at h
     · cases h
     · rename_i l hl
@@ -153,7 +165,7 @@ theorem step_trans {st st' : St} {l : Label} (h : step st l = some st') : Trans 
         cases h
         exact .regAcq ho (regOp_inv hop)
   | regRel t =>
-    simp only [step] at h
+    simp only [step, stepD] at h
     split at h
     · split at h
       · cases h
@@ -162,7 +174,7 @@ theorem step_trans {st st' : St} {l : Label} (h : step st l = some st') : Trans 
         cases h; exact .regRel (by assumption) ho
     · cases h
   | entAcq t s =>
-    simp only [step] at h
+    simp only [step, stepD] at h
     split at h
     · cases h
     · rename_i l hl
@@ -182,7 +194,7 @@ theorem step_trans {st st' : St} {l : Label} (h : step st l = some st') : Trans 
         · cases h
       · cases h
   | entRel t s =>
-    simp only [step] at h
+    simp only [step, stepD] at h
     split at h
     · cases h
     · rename_i l hl
@@ -200,41 +212,50 @@ theorem step_trans {st st' : St} {l : Label} (h : step st l = some st') : Trans 
         · rename_i hs; subst hs; cases h; exact .entRelDel (by assumption) hl
         · cases h
       · cases h
-  | lost t => simp only [step] at h; split at h <;> cases h; exact .lost (by assumption)
+  | lost t => simp only [step, stepD] at h; split at h <;> cases h; exact .lost (by assumption)
   | dispatchBegin t s =>
-    simp only [step] at h
+    simp only [step, stepD] at h
     split at h
     · split at h
       · rename_i hs; subst hs; cases h; exact .dispatchBegin (by assumption)
       · cases h
     · cases h
-  | mstep t => simp only [step] at h; split at h <;> cases h <;> exact .mstep
+  | mstep t => simp only [step, stepD] at h; split at h <;> cases h <;> exact .mstep
   | closeSession t =>
-    simp only [step] at h
+    simp only [step, stepD] at h
     split at h <;> cases h
     · exact .closeSessionDisp (by assumption)
     · exact .closeSessionOpened (by assumption)
   | dispatchEnd t s =>
-    simp only [step] at h
+    simp only [step, stepD] at h
     split at h
     · split at h
       · rename_i hs; subst hs; cases h; exact .dispatchEnd (by assumption)
       · cases h
     · cases h
   | closeStart t s =>
-    simp only [step] at h
+    simp only [step, stepD] at h
     split at h
     · split at h
       · rename_i hs; subst hs; cases h; exact .closeStart (by assumption)
       · cases h
+    · split at h
+      · rename_i hs; subst hs; cases h; exact .closeStartU (by assumption)
+      · cases h
     · cases h
   | closeEnd t s =>
-    simp only [step] at h
+    simp only [step, stepD] at h
     split at h
     · split at h
       · rename_i hs; subst hs; cases h; exact .closeEnd (by assumption)
       · cases h
+    · split at h
+      · rename_i hs; subst hs; cases h; exact .closeEndU (by assumption)
+      · cases h
     · cases h
-  | openDone t => simp only [step] at h; split at h <;> cases h; exact .openDone (by assumption)
+  | entTimeout t s =>
+    simp only [step, stepD, timeoutDisabled, Bool.false_eq_true, false_and, and_false, if_false] at h
+    split at h <;> cases h
+  | openDone t => simp only [step, stepD] at h; split at h <;> cases h; exact .openDone (by assumption)
 
 end VgiVerif.C26
